@@ -349,7 +349,17 @@ def desugar_for_each_sync(toks, audit, item):
     bo = next_sig(toks, k2 + 1)
     if toks[bo][1] != '{' or match_close(toks, bo) != prev_sig(toks, pclose - 1):
         raise ExtractError(f"unsupported construct {item}: for_each_sync callback is not `|pat| {{ block }}`")
-    block = text(toks[bo:match_close(toks, bo) + 1])
+    btoks = toks[bo:match_close(toks, bo) + 1]
+    # a bare `return;` in the callback ends this call of the callback, i.e. goes on with the next item: `continue;`
+    # (a `return <expr>` or a nested closure/fn inside the callback is outside the rule)
+    bsig = [t for k, t in btoks if k not in TRIVIA]
+    if any(bsig[x] == 'return' and bsig[x + 1] != ';' for x in range(len(bsig) - 1)) or 'fn' in bsig or '|' in bsig[1:]:
+        raise ExtractError(f"unsupported construct {item}: for_each_sync callback with `return <expr>` or a nested closure")
+    nret = sum(1 for t in bsig if t == 'return')
+    if nret:
+        btoks = [(k, 'continue' if (k == 'id' and t == 'return') else t) for k, t in btoks]
+        audit.add('R11', f'{nret} `return;` in the callback -> `continue;`', '', item)
+    block = text(btoks)
     # receiver: back to the start of the expression statement
     r0 = a - 1
     d = 0
